@@ -68,6 +68,8 @@ def units(tier, seed):
             out.append(dict(kind="codec", offset=off, chunk=chunk))
     for i in range(len(_hist_exprs())):
         out.append(dict(kind="hist", expr=i))
+    for i in range(len(CROSS)):
+        out.append(dict(kind="hist_cross", first=i))
     return out
 
 
@@ -104,6 +106,19 @@ def run_unit(unit, ctx):
         _codec(unit["offset"], unit["chunk"], ctx)
     elif k == "hist":
         _hist(_hist_exprs()[unit["expr"]], ctx)
+    elif k == "hist_cross":
+        # write-back on one expression, then on another one IN THE SAME PROCESS (shared state
+        # between Port objects must not exist), then on the first again
+        a = CROSS[unit["first"]]
+        for b in CROSS:
+            if a == b:
+                continue
+            for view in ("ports", "sport", "items"):
+                for line in (a, b, a):
+                    ctx.ev()
+                    ctx.nt_count()
+                    _run_history(line, "ios", (view,), ctx)
+        ctx.sample("history_cross", dict(first=a, then=CROSS[0]))
 
 
 def replay(case, ctx):
@@ -261,6 +276,11 @@ def _codec(offset, chunk, ctx):
 
 
 # ------------------------------------------------------------------------------------- histories
+
+
+# expressions whose port lists share first element, last element and length pairwise
+CROSS = ["neq 3", "neq 4", "neq 7 9", "neq 8 9", "gt 7", "gt 8", "lt 9", "lt 8", "eq 10 26 30",
+         "eq 10 28 30", "range 7 9", "range 8 9"]
 
 
 def _hist_exprs():
